@@ -79,6 +79,67 @@ def make_empty_round(rep, r, tier):
                 except Exception as e:
                     rep.failure('NiftiWrapper(qform-only img %s, make_empty=True) raised %r' % (shape, e),
                                 {'tag': 'make_empty:wrapper:qform:%dD' % len(shape), 'suite': 'make_empty', 'shape': shape, 'sd': sd})
+            if 3 <= len(shape) <= 5 and status == 'ok' and sd is not None and sd < 3 and int(np.prod(shape)) <= 400:
+                # an image that already carries a code-0 extension which is not a valid DcmMeta header (another tool's, or a stale one):
+                # the wrapper adds its own; every piece of a split, and the image after replace / remove, carries exactly the
+                # extensions it should and can be wrapped again
+                try:
+                    rep.evaluations += 1
+                    rep.count('make_empty/foreign-extension')
+                    imf = nb.Nifti1Image(np.zeros(shape, dtype=np.int16), np.eye(4))
+                    imf.header.set_dim_info(slice=sd)
+                    foreign = DcmMetaExtension.make_empty(tuple(shape), np.eye(4), None, sd)
+                    S_, T_, V_ = M.dims_of(shape, sd)
+                    foreign.get_class_dict(('global', 'slices'))['Stale'] = [1] * (S_ * T_ * V_)      # one key in two classifications
+                    foreign.get_class_dict(('global', 'const'))['Stale'] = 1
+                    imf.header.extensions.append(foreign)
+                    with contextlib.redirect_stdout(io.StringIO()):
+                        wf = NiftiWrapper(imf, make_empty=True)
+                        wf.meta_ext.get_class_dict(('global', 'const'))['Mark'] = 'own'
+
+                        def n_valid(im):
+                            k = 0
+                            for e_ in im.header.extensions:
+                                if e_.get_code() == 0:
+                                    try:
+                                        e_.check_valid()
+                                        k += 1
+                                    except Exception:
+                                        pass
+                            return k
+                        bad = None
+                        for dim_ in range(len(shape)):
+                            if shape[dim_] < 2 or (dim_ < 3 and dim_ != sd):
+                                continue
+                            for pi, piece in enumerate(wf.split(dim_)):
+                                if n_valid(piece.nii_img) != 1:
+                                    bad = 'piece %d of split(%d) carries %d valid DcmMeta extensions' % (pi, dim_, n_valid(piece.nii_img))
+                                    break
+                                again = NiftiWrapper(piece.nii_img)
+                                if again.meta_ext.to_json() != piece.meta_ext.to_json():
+                                    bad = 'piece %d of split(%d) wraps again to another extension' % (pi, dim_)
+                                    break
+                            if bad:
+                                break
+                        if bad is None:
+                            newext = DcmMetaExtension.make_empty(tuple(shape), np.eye(4), None, sd)
+                            newext.get_class_dict(('global', 'const'))['Mark'] = 'replaced'
+                            wf.replace_extension(newext)
+                            again = NiftiWrapper(wf.nii_img)
+                            if again.meta_ext.to_json() != newext.to_json() or len(wf.nii_img.header.extensions) != 2:
+                                bad = 'after replace_extension the image wraps to %r with %d extensions' % (
+                                    again.meta_ext.get_class_dict(('global', 'const')).get('Mark'), len(wf.nii_img.header.extensions))
+                        if bad is None:
+                            wf.remove_extension()
+                            if n_valid(wf.nii_img) != 0 or len(wf.nii_img.header.extensions) != 1:
+                                bad = 'after remove_extension the image carries %d valid DcmMeta extensions among %d' % (
+                                    n_valid(wf.nii_img), len(wf.nii_img.header.extensions))
+                    if bad:
+                        rep.failure('image %s with a foreign code-0 extension next to the DcmMeta one: %s' % (shape, bad),
+                                    {'tag': 'make_empty:wrapper:foreign:%dD' % len(shape), 'suite': 'make_empty', 'shape': shape, 'sd': sd})
+                except Exception as e:
+                    rep.failure('image %s with a foreign code-0 extension next to the DcmMeta one raised %r' % (shape, e),
+                                {'tag': 'make_empty:wrapper:foreign:%dD' % len(shape), 'suite': 'make_empty', 'shape': shape, 'sd': sd})
             reqs.append({'op': 'make_empty', 'shape': shape, 'sd': sd})
             meta.append((shape, sd, status, ext))
     co = rep.corr.setdefault('make_empty', {'cases': 0, 'agree': 0, 'disagree': 0, 'skipped': 0})
